@@ -16,14 +16,24 @@ def list_packages(project, root, filename):
     return sorted(r for r in project.list_packages(root))
 
 
+def identifier_prefix(line):
+    """The identifier characters at the end of line: what the editor
+    replaces with the chosen proposal, whatever precedes them"""
+    pos = len(line)
+    while pos and (line[pos - 1].isalnum() or line[pos - 1] == '_'):
+        pos -= 1
+    return line[pos:]
+
+
 def assist(project, source, position, filename=None, debug=False):
     source = Source(source, filename, position)
     ctx = EvalCtx(project)
     ln, col = position
     line = source.lines[ln - 1][:col]
+    prefix = identifier_prefix(line)
     if line.lstrip().startswith('from ') and ' import ' not in line:
         iname = line.rpartition(' ')[2]
-        package, sep, prefix = iname.rpartition('.')
+        package, sep, _ = iname.rpartition('.')
         if (not package or package.startswith('.')) and sep:
             package += '.'
         return prefix, list_packages(project, package, filename)
@@ -35,15 +45,14 @@ def assist(project, source, position, filename=None, debug=False):
         head, tail = marked_import
         if tail is None:
             head, tail = split_pkg(head)
-            return tail, list_packages(project, head, filename)
+            return prefix, list_packages(project, head, filename)
         else:
             plist = list_packages(project, head, filename)
             module = project.get_nmodule(head, filename)
-            return tail, sorted(set(plist) | set(module.attr_list(ctx)))
+            return prefix, sorted(set(plist) | set(module.attr_list(ctx)))
 
     scope = extract_scope(source, project)
 
-    prefix = re.split(r'(\.|\s|\()', line)[-1]
     attr = get_marked_atribute(source.tree)
     names = {}
     if attr:
